@@ -66,8 +66,10 @@ Inductive obs :=
 | OOutside (tok : nat) (belongs : option nat).   (* ugen._synthdef *)
 
 (* `rfin` = SynthDesc._read_synthdef2 resets the context in a `finally:` clause (regenerated from the
-   source, gen/Gen_opcodes.desc_read_finally); otherwise it is modelled like SynthDef._build. *)
-Definition step (rfin : bool) (c : ctx) (e : event) : ctx * obs :=
+   source, gen/Gen_opcodes.desc_read_finally); otherwise it is modelled like SynthDef._build as first written.
+   `bfin` = SynthDef._build resets the context whatever is raised (`finally:` or `except BaseException:`,
+   regenerated: gen/Gen_opcodes.build_finally); otherwise only `except Exception:` does. *)
+Definition step (bfin rfin : bool) (c : ctx) (e : event) : ctx * obs :=
   match e with
   | EOutside tok => (add_to_synth c tok, OOutside tok (cur c))
   | ERead id toks o =>
@@ -83,7 +85,8 @@ Definition step (rfin : bool) (c : ctx) (e : event) : ctx * obs :=
       else
         let c1 := mkCtx (Some id) true (defs c) in                     (* acquire; _current_synthdef = self *)
         let c2 := fold_left add_to_synth toks c1 in                    (* the graph function runs *)
-        let cur' := match o with
+        let cur' := if bfin then None else
+                    match o with
                     | Succeeds => None
                     | RaisesException => None                          (* except Exception: ... = None *)
                     | RaisesBase => cur c2                             (* not caught *)
@@ -91,10 +94,10 @@ Definition step (rfin : bool) (c : ctx) (e : event) : ctx * obs :=
         (mkCtx cur' false (defs c2), OBuilt id o)                      (* `with` releases the lock *)
   end.
 
-Fixpoint run (rfin : bool) (c : ctx) (evs : list event) : ctx * list obs :=
+Fixpoint run (bfin rfin : bool) (c : ctx) (evs : list event) : ctx * list obs :=
   match evs with
   | [] => (c, [])
-  | e :: t => let '(c1, o) := step rfin c e in let '(c2, os) := run rfin c1 t in (c2, o :: os)
+  | e :: t => let '(c1, o) := step bfin rfin c e in let '(c2, os) := run bfin rfin c1 t in (c2, o :: os)
   end.
 
 Definition no_base (e : event) : bool :=
